@@ -334,6 +334,48 @@ func init() {
 		Doc:   "Dictionary.fst and Dictionary.fstReader are legitimately nil (field without terms, empty segment); every method call on a value loaded from them is dominated by a nil test of that field in the same function (the establishing function (*Segment).dictionary is exempt)",
 		Run: func(c *Ctx, scope string, r *Report) {
 			dict := c.NamedType("Dictionary")
+			// the establishing function: a method call on rv.fst is allowed only where a store to rv.fst dominates it
+			// (the value was just produced by a cache hit or a successful vellum.Load under dictStart > 0)
+			if est, ok := c.byName["(*Segment).dictionary"]; ok && est.Blocks != nil {
+				for _, b := range est.Blocks {
+					for _, ins := range b.Instrs {
+						ci, ok := ins.(ssa.CallInstruction)
+						if !ok || ci.Common().StaticCallee() == nil || ci.Common().StaticCallee().Signature.Recv() == nil || len(ci.Common().Args) == 0 {
+							continue
+						}
+						ld, ok := ci.Common().Args[0].(*ssa.UnOp)
+						if !ok || ld.Op != token.MUL {
+							continue
+						}
+						fa, ok := ld.X.(*ssa.FieldAddr)
+						if !ok {
+							continue
+						}
+						owner, f := fieldAddrInfo(fa)
+						if owner == nil || owner.Obj() != dict.Obj() || (f.Name() != "fst" && f.Name() != "fstReader") {
+							continue
+						}
+						key := fnName(est) + "/" + f.Name() + "." + ci.Common().StaticCallee().Name()
+						dom := false
+						for _, b2 := range est.Blocks {
+							for _, i2 := range b2.Instrs {
+								if st, ok := i2.(*ssa.Store); ok {
+									if fa2, ok := st.Addr.(*ssa.FieldAddr); ok && fa2.Field == fa.Field && fa2.X == fa.X {
+										if b2 == b && instrIndex(st) < instrIndex(ins) || b2 != b && b2.Dominates(b) {
+											dom = true
+										}
+									}
+								}
+							}
+						}
+						if dom {
+							r.ok(key, fnName(est), c.pos(ins.Pos()), "executed only where ."+f.Name()+" was just established")
+						} else {
+							r.bad(key, fnName(est), c.pos(ins.Pos()), "method call on Dictionary."+f.Name()+" on a path where it was not established (field without dictionary: nil)")
+						}
+					}
+				}
+			}
 			for _, fn := range c.srcFns {
 				if fnName(fn) == "(*Segment).dictionary" {
 					continue
